@@ -252,7 +252,7 @@ def check_instance(n, edges, root, order, delegate=False, want_all=True):
             arg = cond.arg(0)
             if _is_sum_of_squares(arg):
                 out.append(ob(f"{tag}/safety.sqrt-nonneg#{i}/{sid}", "discharged", engine="symrun", backend="sum-of-squares",
-                              sample={"goal": str(cond)[:120]}))
+                              sample={"goal": core.short(cond, 120)}))
             else:
                 out.append(discharge(f"{tag}/safety.sqrt-nonneg#{i}/{sid}", h, cond, backends=("z3", "nlsat"), cex_builder=cexb))
         else:
